@@ -317,7 +317,7 @@ def jobs(tier, seed):
         strings = [list(x) for x in all_strings(_alphabet(sk), 3 if sh == "A-NUL" else 2)]
         alw = list(range(len(sk.arcs), sk.K))
         out += split_job(dict(case="bytes_to_cfg", params=dict(shape=sh, strings=strings, always=alw)), bits)
-    Lb = 6 if quick else 8
+    Lb = 7 if quick else 9
     out.append(dict(case="wfsa_to_bytes_support", params=dict(shapes=["A-MB"], L=Lb), timeout=900))
     out.append(dict(case="wfsa_to_bytes_support", params=dict(shapes=["A-MB4"], L=Lb), timeout=900))
     out.append(dict(case="wfsa_to_bytes_support", params=dict(shapes=["A-NUL"], L=Lb), timeout=900))
@@ -343,7 +343,7 @@ INFO = dict(
     level_note="Alphabets mix 1-,2-,3-,4-byte characters with shared byte prefixes and multi-character terminals. Trusted: CPython str.encode, z3 sequence theory, oracles.",
     design_ref="DESIGN.md section 3 C17",
     explanation="Real conversions on symbolic weights vs oracles; byte-level support decided by z3 for a symbolic byte string.",
-    bounds=dict(quick=dict(symbol_strings="<= 2-3", byte_strings="<= 6"), thorough=dict(symbol_strings="<= 3", byte_strings="<= 8")),
+    bounds=dict(quick=dict(symbol_strings="<= 2-3", byte_strings="<= 7"), thorough=dict(symbol_strings="<= 3", byte_strings="<= 9")),
     outside=["byte strings longer than L", "alphabets outside the catalogue"],
     assumptions=["weights >= 0", "pivots > 0"],
 )
